@@ -344,7 +344,10 @@ def run_harness(exe, lines, extra_args=()):
     status = None
     if rc != 0 or len(obs) != len(lines):
         kind = 'terminate' if 'TERMINATE' in tail else ('sanitizer' if any('Sanitizer' in t or 'runtime error' in t for t in tail) else 'crash')
-        status = dict(kind=kind, rc=rc, at_line=len(obs), detail='\n'.join(tail[-25:]))
+        # the informative part of a sanitizer report is its head (error kind, access, first frames), not the legend at the end
+        head = next((i for i, t in enumerate(tail) if 'ERROR: AddressSanitizer' in t or 'runtime error' in t or 'ERROR: LeakSanitizer' in t), None)
+        detail = '\n'.join(tail[head:head + 12]) if head is not None else '\n'.join(tail[-25:])
+        status = dict(kind=kind, rc=rc, at_line=len(obs), detail=detail)
     return obs, wm, status
 
 
